@@ -22,6 +22,7 @@ func init() {
 
 func c08(c *Ctx) {
 	c08R1(c, "R1")
+	sTransferFlag(c, "R1/S-TRANSFER")
 	c08R2(c, "R2")
 	c08R3(c, "R3")
 	c08R4(c, "R4")
